@@ -455,4 +455,61 @@ VReduce(v, T, r, axis, mask, keepdims) ==
   ELSE IF negaxis < 1 \/ negaxis > D THEN Err
   ELSE Ok(ReduceSeq(v.xs, T, negaxis, r, mask, keepdims))
 
+
+\* ---------------------------------------------------------------- sort / argsort (C06)
+AllSortArgs == [asc : {0, 1}, stable : {0, 1}, arg : {0, 1}]
+\* items are [i |-> position in the group, v |-> value]; the library's order: NaN first (both
+\* directions), then the numbers ascending or descending, missing values last; stable.
+Before(a, b, asc) ==      \* TRUE iff a must come strictly before b
+  CASE a.v.t = "none" -> FALSE
+    [] b.v.t = "none" -> TRUE
+    [] a.v.t = "nan" -> b.v.t # "nan"
+    [] b.v.t = "nan" -> FALSE
+    [] OTHER -> IF asc = 1 THEN a.v.x < b.v.x ELSE a.v.x > b.v.x
+RECURSIVE InsertSorted(_, _, _)
+InsertSorted(sorted, a, asc) ==      \* stable: a goes after every element it is not strictly before
+  IF sorted = <<>> THEN <<a>>
+  ELSE IF Before(a, Head(sorted), asc) THEN <<a>> \o sorted
+  ELSE <<Head(sorted)>> \o InsertSorted(Tail(sorted), a, asc)
+RECURSIVE StableSort(_, _)
+StableSort(s, asc) == IF s = <<>> THEN <<>> ELSE InsertSorted(StableSort(SubSeq(s, 1, Len(s) - 1), asc), s[Len(s)], asc)
+
+\* rows: sequence of [i, v] whose v are values of type T (the members of one group along the
+\* sorted axis, in order).  Result: what stands at the members' places afterwards; `arg` = 1 gives
+\* positions instead of values.  Along a non-innermost axis the group of column j is formed by the
+\* rows long enough to have a j-th element; every row keeps its length ("without moving data
+\* between lists").
+RECURSIVE SortRows(_, _, _, _)
+SortRows(rows, T, asc, arg) ==
+  LET U == StripOpt(T) IN
+  IF ~IsListT(U) THEN
+       LET srt == StableSort(rows, asc) IN
+       [k \in 1..Len(srt) |-> IF arg = 1 THEN VInt(srt[k].i) ELSE srt[k].v]    \* a missing value has a position too
+  ELSE LET width == IF rows = <<>> THEN 0 ELSE SeqMax([k \in 1..Len(rows) |-> Len(rows[k].v.xs)])
+           members(j) == Indexes(rows, LAMBDA m : Len(m.v.xs) >= j)
+           colres(j) == LET ms == members(j) IN
+                        SortRows([k \in 1..Len(ms) |-> [i |-> rows[ms[k]].i, v |-> rows[ms[k]].v.xs[j]]], U.x, asc, arg)
+           cols == [j \in 1..width |-> [ms |-> members(j), res |-> colres(j)]]
+           rank(j, k) == CHOOSE r \in 1..Len(cols[j].ms) : cols[j].ms[r] = k
+       IN [k \in 1..Len(rows) |-> VList([j \in 1..Len(rows[k].v.xs) |-> cols[j].res[rank(j, k)]])]
+
+RECURSIVE SortSeqAx(_, _, _, _, _)
+SortSeqAx(xs, T, negaxis, asc, arg) ==
+  IF negaxis = PureDepthE(T) THEN SortRows([k \in 1..Len(xs) |-> [i |-> k - 1, v |-> xs[k]]], T, asc, arg)
+  ELSE [k \in 1..Len(xs) |-> IF IsNone(xs[k]) THEN VNone
+                             ELSE VList(SortSeqAx(xs[k].xs, StripOpt(T).x, negaxis, asc, arg))]
+
+HasOptList(T) == LET RECURSIVE has(_)
+                     has(U) == CASE U.k = "opt" -> IsListT(U.x) \/ has(U.x)
+                                 [] U.k \in {"var", "reg"} -> has(U.x)
+                                 [] OTHER -> FALSE
+                 IN has(T)
+VSort(v, T, axis, asc, arg) ==
+  LET D == PureDepthE(T)
+      negaxis == IF axis >= 0 THEN D - axis ELSE -axis IN
+  IF HasRecOrUnion(T) THEN Unspec
+  ELSE IF negaxis < 1 \/ negaxis > D THEN Err
+  ELSE IF negaxis >= 2 /\ HasOptList(T) THEN Unspec     \* missing lists inside a non-innermost group: not modelled
+  ELSE Ok(VList(SortSeqAx(v.xs, T, negaxis, asc, arg)))
+
 =============================================================================
